@@ -378,20 +378,30 @@ theorem url_roundtrip_small_scope : urlRoundTripOn (allStrings (0x7F :: 0x3B :: 
 
 /-! ### source strings / URLs through the tokenizer-side value function (`Model/NumTok.lean`, `tokenValue`) -/
 
-/-- `C18-backslash-then-hex-escape`: `"\\\22 "` (an escaped backslash, then U+0022 as a hex escape) denotes `\"` but is
-stored as `\"`, which stands for `"` alone; `"\\\a "` denotes backslash + line feed but is stored as the empty string -/
+/-- `C18-backslash-then-hex-escape` (what remains): `"\\\22 "` (an escaped backslash, then U+0022 as a hex escape)
+denotes `\"` but is stored as `\"`, which stands for `"` alone — `helper.stringvalue` takes the decoded quote for an
+escaped one -/
 theorem backslash_hex_escape_witness :
     cssStringDenote (cps "\"\\\\\\22 \"") = some (cps "\\\"") ∧
-    stringSourceValue (cps "\"\\\\\\22 \"") = .ok (cps "\\\"") ∧ storedDenote (cps "\\\"") = cps "\"" ∧
-    cssStringDenote (cps "\"\\\\\\a \"") = some [0x5C, 0x0A] ∧
-    stringSourceValue (cps "\"\\\\\\a \"") = .ok [] := by decide +kernel
+    stringSourceValue (cps "\"\\\\\\22 \"") = .ok (cps "\\\"") ∧ storedDenote (cps "\\\"") = cps "\"" := by
+  decide +kernel
 
-/-- `C18-url-line-continuation`: a line continuation inside a quoted `url()` stays in the value (`cleanstring` is
-applied to STRING tokens only), although the string denotes `ab` -/
-theorem url_line_continuation_witness :
-    uriSourceValue (cps "url(\"a\\" ++ [0x0A] ++ cps "b\")") = .ok (cps "a\\" ++ [0x0A] ++ cps "b") ∧
+/-- the line-break half of that finding is fixed (tokenizer decodes strings in one pass, `stringsub`): a backslash
+followed by a hex-escaped line feed keeps both — the stored value stands for exactly what the source denotes, and the
+written string denotes it again -/
+theorem backslash_then_escaped_newline_kept :
+    cssStringDenote (cps "\"\\\\\\a \"") = some [0x5C, 0x0A] ∧
+    (stringSourceValue (cps "\"\\\\\\a \"")).toOption.map storedDenote = some [0x5C, 0x0A] ∧
+    (stringSourceValue (cps "\"\\\\\\a \"")).toOption.bind (fun r => cssStringDenote (helperString r)) = some [0x5C, 0x0A] := by
+  decide +kernel
+
+/-- the former `C18-url-line-continuation` (fixed): a line continuation inside a quoted `url()` denotes nothing and is
+no longer part of the uri — the same as in a string -/
+theorem url_line_continuation_removed :
+    uriSourceValue (cps "url(\"a\\" ++ [0x0A] ++ cps "b\")") = .ok (cps "ab") ∧
     cssStringDenote (cps "\"a\\" ++ [0x0A] ++ cps "b\"") = some (cps "ab") ∧
-    stringSourceValue (cps "\"a\\" ++ [0x0A] ++ cps "b\"") = .ok (cps "ab") := by decide +kernel
+    stringSourceValue (cps "\"a\\" ++ [0x0A] ++ cps "b\"") = .ok (cps "ab") ∧
+    uriSourceValue (cps "url('a\\" ++ [0x0D, 0x0A] ++ cps "b')") = .ok (cps "ab") := by decide +kernel
 
 /-- `C18-url-edge-escape` at source level: `url(\20 a)` denotes ` a`, its uri is `a` -/
 theorem url_edge_source_witness :
